@@ -72,23 +72,27 @@ def build_all(report):
                             "--report", os.path.join(WORK, "extraction_report.json")])
         if rc != 0:
             failures["translator"] = (out + err)[-4000:]
-        # 2. harness generators
+        # 2. harness generators (typed families; files rewritten only when their content changes)
+        hsrc = os.path.join(HARNESS, "hcore", "src")
         for name, kinds in (("Reg4", "szlh"), ("Reg10", "szlhshzslh"), ("Reg8", "szlhshzs")):
-            rc, out, err = run([sys.executable, os.path.join(HARNESS, "gen", "gen_family.py"), name, kinds, "shz",
-                                os.path.join(WORK, "gen_%s.rs" % name.lower())])
+            tmpf = os.path.join(WORK, "gen_%s.rs" % name.lower())
+            rc, out, err = run([sys.executable, os.path.join(HARNESS, "gen", "gen_family.py"), name, kinds, "shz", tmpf])
             if rc != 0:
                 failures["gen_family"] = (out + err)[-2000:]
             else:
-                write_if_changed(os.path.join(HARNESS, "src", "gen_%s.rs" % name.lower()),
-                                 open(os.path.join(WORK, "gen_%s.rs" % name.lower())).read())
-        for g in sorted(os.listdir(os.path.join(HARNESS, "gen"))):
-            if g.startswith("gen_") and g != "gen_family.py" and g.endswith(".py"):
-                target = os.path.join(WORK, g[:-3] + ".rs")
-                rc, out, err = run([sys.executable, os.path.join(HARNESS, "gen", g), target])
-                if rc != 0:
-                    failures[g] = (out + err)[-2000:]
-                else:
-                    write_if_changed(os.path.join(HARNESS, "src", g[:-3] + ".rs"), open(target).read())
+                write_if_changed(os.path.join(hsrc, "gen_%s.rs" % name.lower()), open(tmpf).read())
+        tmpf = os.path.join(WORK, "gen_queries.rs")
+        rc, out, err = run([sys.executable, os.path.join(HARNESS, "gen", "gen_queries.py"), tmpf])
+        if rc != 0:
+            failures["gen_queries"] = (out + err)[-2000:]
+        else:
+            write_if_changed(os.path.join(hsrc, "gen_queries.rs"), open(tmpf).read())
+        tmpf = os.path.join(WORK, "gen_sched.rs")
+        rc, out, err = run([sys.executable, os.path.join(HARNESS, "gen", "gen_sched.py"), tmpf])
+        if rc != 0:
+            failures["gen_sched"] = (out + err)[-2000:]
+        else:
+            write_if_changed(os.path.join(HARNESS, "src", "gen_sched.rs"), open(tmpf).read())
         lockfile = os.path.join(HARNESS, "Cargo.lock")
         if not os.path.exists(lockfile):
             shutil.copy(os.path.join(REPO, "Cargo.lock"), lockfile)
